@@ -41,7 +41,7 @@ CLAIMS = {
   technique="runtime monitoring: independent reference model (EPSG matrices, per-epoch static operators) and invariant monitor over generated parameter sets",
   ref="DESIGN.md §2 C07"),
  "C10": dict(
-  text="Held on the executions observed: for every catalogued operator, grid operator and one-way operator, per tuple: the count never exceeds the set, an uncounted tuple always carries NaN (never unchanged or transformed-but-valid), in-domain tuples are counted and finite in both directions, elements the operator does not work on come back bit-identical, NaN in an input element (and in random subsets of elements) reaches every output element that observably depends on it, points outside grid coverage are NaN and uncounted (unchanged and counted with @null), declared domain limits (tmerc strip inverse, laea disc, lcc opposite pole) are flagged, unsupported inverses return 0 and leave data bit-identical, and flat pipelines report the minimum of the per-step counts seen by the trace hook.",
+  text="Held on the executions observed: for every catalogued operator, grid operator and one-way operator, per tuple: the count never exceeds the set, an uncounted tuple always carries NaN (never unchanged or transformed-but-valid), in-domain tuples are counted and finite in both directions, elements the operator does not work on come back bit-identical, NaN in an input element (and in random subsets of elements) reaches every output element that observably depends on it, points outside grid coverage are NaN and uncounted (unchanged and counted with @null) on the shipped grids and on generated grids with oblong cells (half a cell of the axis's own spacing on each side), declared domain limits (tmerc strip inverse, laea disc, lcc opposite pole) are flagged, unsupported inverses return 0 and leave data bit-identical, and flat pipelines report the minimum of the per-step counts seen by the trace hook.",
   note="Dependency of output element j on input element i is observed on the operator itself (perturbing i changes j), so no hand-written dependency matrix is trusted. Whether a counted tuple may hold NaN for NaN input is not asserted (the statement only constrains uncounted tuples and declared domain limits).",
   technique="runtime monitoring: invariant monitor at the API boundary over in-domain, edge, far-outside and NaN-seeded tuples; hooked per-step counts",
   ref="DESIGN.md §2 C10"),
